@@ -11,7 +11,7 @@ CLAIMED = {
          "Trusts the harness oracle (prefix popcounts of the logical bits) and decoders. Vectors above 2^32, 2^33 and 2^34 bits (dense, sparse, all ones, three upper blocks, upper blocks that are empty except for their last counter block) are enumerated cases of both tiers."),
  "C02": ("differential property testing against the positions of ones/zeros over generated bit vectors x selection structures x parameters",
          "Generated-input search over bit vectors (including prescribed gap lists around 2^16, ragged tails, stale bits) x selection stacks (Select9, SelectAdapt new/with_span/with_inv, 12 const (K,M) pairs, SelectSmall over each RankSmall, the zero twins, nestings) x generated parameters; select/select_zero compared with the oracle for every rank (sampled above 4096) and None beyond the count. Exploration level.",
-         "Trusts the oracle (positions of ones / binary search on prefix counts for zeros). 64-bit spans, mixed 16/32/64-bit span classes irregular dense vectors with long second/third upper blocks and inventory spans of exactly 2^32 - 1, 2^32, 2^32 + 1 bits are enumerated cases above 2^32 bits in both tiers; blocks_per_inv ranges over {0, 1, 2, 3, 8, 16, 64}."),
+         "Trusts the oracle (positions of ones / binary search on prefix counts for zeros). 64-bit spans, mixed 16/32/64-bit span classes irregular dense vectors with long second/third upper blocks and inventory spans of exactly 2^32 - 1, 2^32, 2^32 + 1 bits are enumerated cases above 2^32 bits in both tiers; blocks_per_inv ranges over {0, 1, 2, 3, 8, 16, 64}. An enumerated segment places one group of 512 ones over exactly B units of 256 bits for B at, below and above every span class of a two-level inventory (1, 2, 16, 128, 256, 512), with 1..511 ones packed at the end of the group, under every Select9 stack."),
  "C03": ("round-trip property testing: generated monotone sequences x builders x 9 selection back-ends, illegal pushes must be rejected",
          "Generated-input search over monotone sequences (duplicate runs crossing words, powers of two, huge gaps, u up to usize::MAX, (n,u) near the power-of-two split) built by push / extend / From<slice> / concurrent set in random order, then mapped onto 9 selection back-ends; len, get, iter, iter_from/into_iter_from at all starts with exact length hints compared with the input; out-of-order, too large and supernumerary pushes must panic and leave the builder usable; plus enumerated long skewed sequences (70000..1.7 million values) whose selector inventory entries span exactly 2^k-1, 2^k, 2^k+1 bits; iterators are also driven through nth/skip/step_by/count/last scripts against the model iterator. Exploration level.",
          "Trusts the input vector as oracle. Random sequences are bounded (<= 10^5 elements in the thorough tier); the enumerated skewed sequences reach 1.7 million."),
@@ -35,7 +35,7 @@ CLAIMED.update({
          "Generated-input search over the same type table and configurations as C07 with hash widths b in {1,2,3,5,7,8,9,12,16,31,32,33,63,64}: every inserted key must be found by contains and Index, len/hash_bits checked, contains_unaligned where admissible, including the peeling-regimes segment of C07; non-members from a structurally disjoint family are probed (2*10^4 to 2*10^5 per filter) and the positive count must lie within N 2^-b +- (7 sigma + 4). Exploration level; the rate check decides 'grossly wrong vs plausible'.",
          "The rate is a statistical statement: the tolerance keeps the per-run false-alarm probability negligible while a rate off by a factor 2 for b<=12 is far outside."),
  "C09": ("round-trip and lookup property testing of rear-coded lists against the Vec<String> they were built from",
-         "Generated-input search over block sizes, prefix-family string lists over six alphabets (multi-byte UTF-8 with characters sharing 1, 2 or 3 bytes, lengths around 127..130; enumerated rear lengths in the 3-, 4- and (thorough) 5-byte variable-byte regimes, up to 270 MB strings), sorted/reversed/duplicated/unsorted order, push or extend; len, get, get_in_place, iter/lend/into_lender, iter_from/lend_from/into_iter_from at every start with exact hints, index_of/contains for present, absent, prefix, extension and in-between probes. Exploration level.",
+         "Generated-input search over block sizes, prefix-family string lists over six alphabets (multi-byte UTF-8 with characters sharing 1, 2 or 3 bytes, lengths around 127..130; enumerated rear lengths in the 3-, 4- and (thorough) 5-byte variable-byte regimes, up to 270 MB strings; enumerated lists whose consecutive strings share 2^16..2^22 bytes with a single descent, an ascent or a proper prefix after them), sorted/reversed/duplicated/unsorted order, push or extend; len, get, get_in_place, iter/lend/into_lender, iter_from/lend_from/into_iter_from at every start with exact hints, index_of/contains for present, absent, prefix, extension and in-between probes. Exploration level.",
          "Trusts the Vec<String> oracle; strings never contain NUL (documented precondition)."),
  "C10": ("differential property testing of bulk operations against element-wise loops, with a completely enumerated sub-domain for copy",
          "Generated-input search over six word types: copy vs element loop (plus the complete enumeration of u8/u16, all widths, 24-element vectors, every (from,to,len)), apply_in_place with a recording closure on fresh and spare-word vectors, reset variants, BitVec fill/flip/reset/count and parallel and atomic twins, try_chunks_mut views (read and write), get_unaligned vs get, the blanket impls for Vec<W>/Box<[W]>, the trait's default copy/apply_in_place/set run by a harness-defined implementor, the parallel variants on 12.8-64 Mbit vectors in rayon pools of 1/2/3/default threads and all-ones vectors of 2^33..2^34+2^32 bits. Exploration level with one exhaustively enumerated finite sub-domain.",
@@ -62,13 +62,13 @@ CLAIMED.update({
          "All (stream, pass, item) and rewind fault positions for 6 builder types x 8 small sizes, with and without a duplicate that forces three retry passes, plus random faults/duplicates up to 3000 keys and duplicates in 10^5-key sets, the crate's own line lenders over a Read+Seek source failing at an exact byte offset with one of seven io::ErrorKinds or at the k-th seek, and gzip/zstd key streams that end early; a reached fault must come back as the returned error, duplicates with check_dups must give an error within the attempt bound, anything else must be Ok and verify; Ok with a wrong pair is always a violation.",
          "Faults are injected at the lender interface (RewindableIoLender) and under the crate's lenders (Read+Seek), not inside the signature store's file I/O. Deadlocks are violations (state criterion)."),
  "C18": ("multiset-equality property testing of the signature store against a hash multiset, online and offline",
-         "Generated multisets (skewed high bits, duplicates) x (bucket bits, max shard bits, shard bits) x two signature and four value types x online/offline; number of shards, shard_sizes, home shard of every pair and multiset equality for two borrowed iterations and the consuming one; enumerated stores with single buckets of 2^15..2^18 pairs and one bucket file above 2 GiB. Exploration level.",
+         "Generated multisets (skewed high bits, duplicates) x (bucket bits, max shard bits, shard bits) x two signature and four value types x online/offline; number of shards, shard_sizes, home shard of every pair and multiset equality for two borrowed iterations and the consuming one; enumerated stores with single buckets of 2^15..2^18 pairs one bucket file above 2 GiB, and stores with max shard bits 11..=20 (more than 2^16 shards, more than 2^16 shards per bucket). Exploration level.",
          "Offline stores are limited to 2^4 buckets per case; the 2 GiB case needs about 2.2 GB of temporary disk and 3 GB of memory."),
  "C19": ("differential property testing of both GF(2) solvers against an independent dense Gauss-Jordan oracle, with an exhaustively enumerated small sub-domain",
          "Generated systems over five word types in seven shapes (planted, contradictory, repeated, rank-deficient, 3-uniform, fuse-like, arbitrary) plus all 41371 systems with 3 variables, <=4 equations and 1-bit constants, enumerated systems with rows of 255..131072 variables and with 65537..68536 equations (variables of weight ~2^16); Ok iff solvable, solutions verified by the harness' evaluator and by check(); three further solver calls on one object must still satisfy the original equations. Exploration level with one exhaustive sub-domain.",
          "Trusts the harness' Gauss-Jordan oracle; the many-equation systems are solvable or contradictory by construction and run through the lazy solver only (the plain elimination is quadratic)."),
  "C20": ("history-based property testing of rewindable lenders: generated inputs and Next/Rewind histories against the harness' own line splitter",
-         "Ten lender kinds (plain/zstd/gzip line lenders over cursors and files, small-buffer readers, FromIntoIterator) with optional take(m), inputs with CR/LF/CRLF corner cases, a leading BOM or '#', lines longer than the reader's buffer, zstd sources of 1-3 concatenated frames, zstd frames declaring 2^28..2^30-byte windows, gzip sources of 1-3 members, lines that are not valid UTF-8, histories with up to 7 rewinds; every item of every pass compared. Exploration level. One open known finding (Take) is excluded by construction and re-checked on every run.",
+         "Ten lender kinds (plain/zstd/gzip line lenders over cursors and files, small-buffer readers, FromIntoIterator) with optional take(m), inputs with CR/LF/CRLF corner cases, a leading BOM or '#', lines longer than the reader's buffer, single lines of 2^16..2^28 bytes (thorough 2^30) of ASCII or 3-byte characters in every line lender, zstd sources of 1-3 concatenated frames, zstd frames declaring 2^28..2^30-byte windows, gzip sources of 1-3 members, lines that are not valid UTF-8, histories with up to 7 rewinds; every item of every pass compared. Exploration level. One open known finding (Take) is excluded by construction and re-checked on every run.",
          "Compression in the harness uses the zstd/flate2 crates the library itself depends on."),
 })
 
